@@ -85,7 +85,7 @@ struct Act { int kind; int arena; int n; int points; bool isolate; };   // kind 
 
 SIM_SCENARIO(scen_c16, "c16", "C16", 6000000, 30000) {
     hx::Desc d;
-    hx::draw_runtime_config(d, 8);
+    hx::draw_runtime_config(d, 8, /*allow_warm=*/false);   // the worker budget clause is about work that starts under the limit
     World world; W = &world;
     int narenas = (int)sim::draw_range(1, 3, "narenas");
     world.ar.resize((size_t)narenas);
